@@ -138,8 +138,15 @@ def forNameMaybe : List Entry → String → Option Entry
   | f :: rest, field => if f.fieldKey == field then some f else forNameMaybe rest field
 
 /-- `ForType[A]`: first entry whose field type is identical to the witness type.  Go tests
-`ft.String() == val.String() && ft.AssignableTo(val)`; on canonical `GoType`s (distinct types never
-print identically in generated code) that is type identity. -/
+`ft.String() == val.String() && ft.AssignableTo(val)`.  The equality of `GoType`s below stands for that
+CONJUNCTION, i.e. for type identity: a defined type is identified by the `id` of `GoType.named id u`
+(import path + name, e.g. `pa/v1.ID`), not by what `String()` prints (`v1.ID`).  The printed name alone
+does not identify a type, and the harness generates such types on purpose: the packages `harness/pa/v1`,
+`harness/pb/v1`, `harness/pc/v1` share their package name and type names, so `pa/v1.ID` and `pb/v1.ID`
+(and `[]v1.ID`, `*v1.ID`, `map[string]v1.ID`, … built from them) are distinct `GoType`s with the same
+`String()`; a shape lists one of them as a decoy before the other.  `AssignableTo` then decides: between two
+defined types, and between composite types whose element types differ, it holds only for identical types
+(no interface or channel kinds among the generated same-printing types, where it is wider). -/
 def forType : List Entry → GoType → Except Panic Entry
   | [], _ => .error .errType
   | f :: rest, val => if f.field.type = val then .ok f else forType rest val
